@@ -132,6 +132,8 @@ type RunOpts struct {
 	// Repeat > 1 executes the lint that many times in one process/run and
 	// reports the last execution (state carried between executions shows up as a difference).
 	Repeat int
+	// ReuseLinter makes the repeated executions use one Linter instance (library APIs only).
+	ReuseLinter bool
 	// After, when set, runs inside the simulation after the lint returned.
 	After func()
 }
@@ -160,8 +162,12 @@ func RunLint(w *World, c *Chooser, o RunOpts) *LintResult {
 		rep = 1
 	}
 	res.K = kern.Run(cfg, func() {
+		var shared *sharedLinter
+		if o.ReuseLinter && w.API != APIMain {
+			shared = &sharedLinter{}
+		}
 		for i := 0; i < rep; i++ {
-			lintOnce(w, res)
+			lintOnce(w, res, shared)
 		}
 		if o.After != nil {
 			o.After()
@@ -180,7 +186,14 @@ func RunLint(w *World, c *Chooser, o RunOpts) *LintResult {
 	return res
 }
 
-func lintOnce(w *World, res *LintResult) {
+// sharedLinter keeps one Linter (and its output buffers) across repeated executions.
+type sharedLinter struct {
+	l         *actionlint.Linter
+	out, errb bytes.Buffer
+	err       error
+}
+
+func lintOnce(w *World, res *LintResult, shared *sharedLinter) {
 	var out, errb bytes.Buffer
 	res.Errs, res.Fatal = nil, ""
 	switch w.API {
@@ -199,7 +212,19 @@ func lintOnce(w *World, res *LintResult) {
 			Verbose:        w.Opts.Verbose,
 			LogWriter:      &errb,
 		}
-		l, err := actionlint.NewLinter(&out, opts)
+		var l *actionlint.Linter
+		var err error
+		if shared != nil {
+			if shared.l == nil && shared.err == nil {
+				opts.LogWriter = &shared.errb
+				shared.l, shared.err = actionlint.NewLinter(&shared.out, opts)
+			}
+			l, err = shared.l, shared.err
+			shared.out.Reset()
+			shared.errb.Reset()
+		} else {
+			l, err = actionlint.NewLinter(&out, opts)
+		}
 		var errs []*actionlint.Error
 		if err == nil {
 			switch w.API {
@@ -231,6 +256,9 @@ func lintOnce(w *World, res *LintResult) {
 		}
 	}
 	res.Stdout, res.Stderr = out.String(), errb.String()
+	if shared != nil && w.API != APIMain {
+		res.Stdout, res.Stderr = shared.out.String(), shared.errb.String()
+	}
 }
 
 // WorldJSON is the materialised form of a world for replay files.
